@@ -49,12 +49,29 @@
                    v is Configure.Get(key) read again on the App of the bindings after all that.  The model has no state
                    to share: a binding is a function of (configured value, tag, type) - the observations are compared
                    with exactly the predictions of a single binding, and v with [cv].
+   [cxargs]      : FURTHER ARGUMENTS.  (before, after) = argument text the driver put in front of / behind the arguments the
+                   model reads (required=false, mapper=<key>) on every tag of the case: custom arguments, bracketed values
+                   with commas inside, validate=omitempty on scalar fields - so that required=false stands first, last or
+                   in the middle of 2-5 arguments.  They are part of the tag text the model parses ([args_of]); the value
+                   part, and with it every prediction, is the same as without them: an optional point never fails and a
+                   bound value never changes, whatever else the tag carries.
+   [chist]       : POPULATED AGAIN.  Some (doc, sets) = the case's component is LAZY and its points were populated twice
+                   on one App: the start loaded the document doc; the first request for the component populated it and
+                   then failed at a later stage (Init / AfterPropertiesSet error, a validate argument, a by-name
+                   dependency that does not exist, a required key that is absent); Configure.Set ran for every (key,
+                   value) of sets; the component was requested again and the observations are its fields after that
+                   second creation - over the same Property objects.  [cv] is Configure.Get(key) after the Sets.  The
+                   model (Model/Rebind.v, the functions of c17_repopulate_* / c17_rebind_after_set) runs the history
+                   populate ; Set* ; populate on the store of Model/ConfigStore.v: the store after the Sets must answer
+                   Get(key) like the real one, and the LAST pass must be what was observed.  The oracle demands that the
+                   second creation succeeds on every route (the bindings of such groups are well-typed and present
+                   after the Sets) on top of the three routes agreeing on the configured value of that moment.
    [kf_class]    : the known-finding classes KF-C17a..i as predicates over the configured value /
                    literal and the field type (0 = none).  The driver accepts a failing oracle as a
                    known finding only if the case is in a class AND check_case holds (the
                    implementation does exactly what the model of the unrepaired value path says). *)
 From Coq Require Import List NArith ZArith Bool.
-From IocVerif Require Import Model.Values.
+From IocVerif Require Import Model.Values Model.ConfigStore Model.Rebind.
 Import ListNotations.
 Local Open Scope list_scope.
 
@@ -82,7 +99,10 @@ Record case := mkCase {
   cpfx : bytes;         (* template: literal text before ... *)
   csfx : bytes;         (* ... and after the placeholder *)
   cmap : option bytes;  (* the tag argument mapper=<tag key> of this property *)
-  cget2 : option cval   (* mutating groups: Configure.Get(key) after every holder changed its bound value in place *)
+  cget2 : option cval;  (* mutating groups: Configure.Get(key) after every holder changed its bound value in place *)
+  chist : option (list (bytes * cval) * list (bytes * cval));
+                        (* populated again: (the loaded document, the Configure.Set calls between the two passes) *)
+  cxargs : bytes * bytes (* further arguments in front of / behind required=false and mapper=, each with its leading comma *)
 }.
 
 (* the type the property's decoder sees: names by the yaml tag, or by the tag key of the property's own mapper argument *)
@@ -139,7 +159,9 @@ Definition obs_of (r : res fval) : obs :=
 
 Definition cfg_case (c : case) : bytes -> cval := cfg_of [(ckey c, cv c)].
 Definition args_of (c : case) : bytes :=
-  (if creq c then [] else lit_req_false) ++ match cmap c with Some m => lit_mapper_arg ++ m | None => [] end.
+  fst (cxargs c) ++
+  (if creq c then [] else lit_req_false) ++ match cmap c with Some m => lit_mapper_arg ++ m | None => [] end
+  ++ snd (cxargs c).
 Definition body_of (c : case) : bytes := key_dflt (ckey c) (cdflt c).
 
 Definition value_tag (c : case) : bytes :=
@@ -201,11 +223,39 @@ Definition route_ok (modelled : bool) (m : option (res fval)) (o : obs) : bool :
 Definition config_kept (c : case) : bool :=
   match cget2 c with Some v => cval_eqb v (cv c) | None => true end.
 
+(* populated again: the three points of the case, the history populate ; Set* ; populate on the model store, and its
+   last pass against the observations; the store after the Sets answers Get(key) as the real Configure did *)
+Definition case_points (c : case) : list cpoint :=
+  [mkCPoint RtPrefix (creq c) (ckey c) (cT c);
+   mkCPoint RtValue (creq c) (tag_value_part (value_tag c)) (cT c);
+   mkCPoint RtProp (creq c) (body_of c ++ args_of c) (cT c)].
+
+Definition hist_steps (c : case) (sets : list (bytes * cval)) : list pstep :=
+  PPopulate (case_points c) :: map (fun kv : bytes * cval => PSet (fst kv) (snd kv)) sets ++ [PPopulate (case_points c)].
+
+Definition hist_ok (c : case) : bool :=
+  match chist c with
+  | None => true
+  | Some (doc, sets) =>
+    let s0 := mkStore [] doc in
+    key_modelled (ckey c) && cfg_modelled (VMap doc)
+    && forallb (fun kv : bytes * cval => key_modelled (fst kv) && val_modelled (snd kv)) sets
+    && cval_eqb (vget (pstate s0 (hist_steps c sets)) (ckey c)) (cv c)
+    && match last (prun (cfix c) s0 (hist_steps c sets)) [] with
+       | [rp; rv; rr] =>
+         route_ok (prefix_modelled c) rp (o_prefix c)
+         && route_ok (value_modelled c) rv (o_value c)
+         && route_ok (value_modelled c) rr (o_prop c)
+       | _ => false
+       end
+  end.
+
 Definition check_case (c : case) : bool :=
   route_ok (prefix_modelled c) (Some (model_prefix c)) (o_prefix c)
   && route_ok (value_modelled c) (model_value c) (o_value c)
   && route_ok (value_modelled c) (model_prop c) (o_prop c)
-  && config_kept c.
+  && config_kept c
+  && hist_ok c.
 
 (* ---- the property on the observations ------------------------------------------------------------ *)
 
@@ -348,9 +398,20 @@ Definition oracle_tpl (c : case) : bool :=
   end
   && route_ok (value_modelled c) (model_value c) (o_value c).
 
+(* populated again after the configuration was corrected: every route that ran bound a value (the second creation
+   succeeded); that the routes agree on the value configured at that moment is oracle_key / oracle_tpl with [cv] read
+   after the Sets *)
+Definition retried_ok (c : case) : bool :=
+  match chist c with
+  | None => true
+  | Some _ =>
+    let bound o := match o with ONone | OOk _ => true | _ => false end in
+    bound (o_prefix c) && bound (o_value c) && bound (o_prop c)
+  end.
+
 Definition oracle_case (c : case) : bool :=
   match ckind c with O => oracle_key c | 1%nat => oracle_lit c | _ => oracle_tpl c end
-  && config_kept c.
+  && config_kept c && retried_ok c.
 
 (* 1..9 = KF-C17a..i; 0 = none.  Priority: the class that explains the top-level text first. *)
 Definition kf_class (c : case) : nat :=
@@ -485,6 +546,30 @@ Definition sharing_counts (cs : list case) : list nat :=
    length (filter (fun c => mutated c && is_container (cv c) && is_ok (o_prefix c)) cs);
    length (filter (fun c => mutated c && is_container (cv c) &&
                             match embed (cT c) (cv c) with Some _ => true | None => false end) cs)].
+
+(* bindings populated again: [all; ... whose key was Set between the passes (the store's answer changed); ... bound ok on
+   every route that ran; ... inside the modelled fragment on both routes] *)
+Definition retried (c : case) : bool := match chist c with Some _ => true | None => false end.
+Definition key_was_set (c : case) : bool :=
+  match chist c with
+  | Some (doc, sets) => negb (cval_eqb (vget (mkStore [] doc) (ckey c)) (cv c))
+  | None => false
+  end.
+Definition retry_counts (cs : list case) : list nat :=
+  [length (filter retried cs);
+   length (filter key_was_set cs);
+   length (filter (fun c => retried c && retried_ok c && (is_ok (o_prefix c) || is_ok (o_value c))) cs);
+   length (filter (fun c => retried c && prefix_modelled c && value_modelled c) cs)].
+
+(* further arguments: [cases with some; ... with required=false among them (not first or not last); ... of those whose key
+   is absent and whose value / prop routes left the field alone without failing] *)
+Definition has_xargs (c : case) : bool :=
+  match cxargs c with ([], []) => false | _ => true end.
+Definition xargs_counts (cs : list case) : list nat :=
+  [length (filter has_xargs cs);
+   length (filter (fun c => has_xargs c && negb (creq c)) cs);
+   length (filter (fun c => has_xargs c && negb (creq c) && prefix_binds_nothing c && is_ok (o_value c)
+                            && (is_ok (o_prop c) || Nat.eqb (ckind c) 2)) cs)].
 
 Definition class_counts (cs : list case) : list nat :=
   let key c := Nat.eqb (ckind c) 0 in
